@@ -273,15 +273,33 @@ def accept_decision(rep, ex: Explorer):
     qual = f"{PO}.conditional_acceptance"
     site = fn_label(ex.prog, qual)
 
+    held = {}
+
     def frank(I, fi, args, kwargs, node):
         f = args[1]
-        I.log("formula_rank", node, formula=f)
+        I.log("formula_rank", node, formula=f, receiver=args[0])
         return Sym(("frank", F.canon(f.f) if isinstance(f, FormulaV) else desc(f)), "optint")
 
     def setup(I):
-        return [_obj(I), make_query()], {}
+        held["self"] = _obj(I)
+        return [held["self"], make_query()], {}
 
     paths = ex.run(qual, setup, summaries=_summ({f"{PO}.formula_rank": frank}), key="accept")
+    # the two ranks are those of this ranking function: taken on another object (a marginal, a conditionalisation - both are
+    # built from the ranks *stored* so far, unranked worlds left out) they are ranks of something else as long as not every
+    # world was ranked before
+    foreign = None
+    for p in paths:
+        forced = any(ev.kind == "rank_world" for ev, Q in iter_events(p.events))
+        for ev, Q in iter_events(p.events):
+            if ev.kind == "formula_rank" and isinstance(ev.data.get("receiver"), Ref) and isinstance(held.get("self"), Ref) and ev.data["receiver"].oid != held["self"].oid:
+                if forced:
+                    raise AnalysisError(f"{site}: formula ranks are taken on another ranking object after worlds were ranked; cannot decide that it stands for this one")
+                foreign = foreign or ev
+    if foreign is not None:
+        rep.violation("ACCEPT.decision", f"{site}:{foreign.node.lineno}", "whose ranks", "acceptance compares rank(A∧B) and rank(A∧¬B) of this ranking function (an object derived from the stored ranks knows only the worlds ranked so far)",
+                      extracted="formula_rank is called on another ranking object built inside the call", required="self.formula_rank", function=site)
+        return
     V = ("frank", F.canon(verification(QUERY)))
     N = ("frank", F.canon(falsification(QUERY)))
     n = 0
